@@ -492,4 +492,134 @@ theorem workSplit_spec (files : List (Nat × List CellRec)) (rows nProc : Nat)
           intro hnil
           simp [hnil] at hl
 
+/-! ### `merge_precompute_files` -/
+
+theorem mostIdx_bound : ∀ (bs : List Buffer) (i best tot : Nat),
+    mostIdx bs i best tot = best ∨
+      (i ≤ mostIdx bs i best tot ∧ mostIdx bs i best tot < i + bs.length) := by
+  intro bs
+  induction bs with
+  | nil => intro i best tot; left; rfl
+  | cons b bs ih =>
+    intro i best tot
+    simp only [mostIdx]
+    split
+    · rcases ih (i + 1) i (totalCells b) with h | h
+      · right; rw [h]; simp
+      · right; simp only [List.length_cons]; omega
+    · rcases ih (i + 1) best tot with h | h
+      · left; exact h
+      · right; simp only [List.length_cons]; omega
+
+theorem replaceWhereMore_length (dst src : Buffer) :
+    (replaceWhereMore dst src).length = min dst.length src.length := by
+  simp [replaceWhereMore]
+
+theorem replaceWhereMore_getElem? (dst src : Buffer) (r : Nat) (d s : Row)
+    (hd : dst[r]? = some d) (hs : src[r]? = some s) :
+    (replaceWhereMore dst src)[r]? = some (if s.n > d.n then s else d) := by
+  simp [replaceWhereMore, List.getElem?_zipWith, hd, hs]
+
+theorem foldl_replaceWhereMore (nC : Nat) :
+    ∀ (others : List Buffer) (start : Buffer), start.length = nC →
+      (∀ f ∈ others, f.length = nC) →
+      (others.foldl replaceWhereMore start).length = nC ∧
+      ∀ r, r < nC → ∃ f ∈ start :: others, ∃ row, f[r]? = some row ∧
+        (others.foldl replaceWhereMore start)[r]? = some row ∧
+        ∀ f' ∈ start :: others, ∀ row', f'[r]? = some row' → row'.n ≤ row.n := by
+  intro others
+  induction others with
+  | nil =>
+    intro start hs _
+    refine ⟨hs, fun r hr => ⟨start, by simp, start[r], by simp [hs, hr], by simp [hs, hr], ?_⟩⟩
+    intro f' hf' row' hrow'
+    simp only [List.mem_singleton] at hf'
+    subst hf'
+    have : f'[r]? = some f'[r] := by simp [hs, hr]
+    rw [this] at hrow'
+    simp only [Option.some.injEq] at hrow'
+    rw [hrow']
+  | cons o others ih =>
+    intro start hs hlen
+    have ho : o.length = nC := hlen o (by simp)
+    have hlen' : ∀ f ∈ others, f.length = nC := fun f hf => hlen f (by simp [hf])
+    have hs' : (replaceWhereMore start o).length = nC := by
+      rw [replaceWhereMore_length]; omega
+    obtain ⟨h1, h2⟩ := ih (replaceWhereMore start o) hs' hlen'
+    refine ⟨h1, fun r hr => ?_⟩
+    obtain ⟨f, hf, row, hfr, hout, hmax⟩ := h2 r hr
+    have hd : start[r]? = some start[r] := by simp [hs, hr]
+    have hso : o[r]? = some o[r] := by simp [ho, hr]
+    have hrep := replaceWhereMore_getElem? start o r _ _ hd hso
+    have hmax0 := hmax (replaceWhereMore start o) (by simp) _ hrep
+    have hmax' : ∀ f' ∈ start :: o :: others, ∀ row', f'[r]? = some row' → row'.n ≤ row.n := by
+      intro f' hf' row' hrow'
+      simp only [List.mem_cons] at hf'
+      rcases hf' with rfl | rfl | hf'
+      · rw [hd] at hrow'; simp only [Option.some.injEq] at hrow'; subst hrow'
+        split at hmax0 <;> omega
+      · rw [hso] at hrow'; simp only [Option.some.injEq] at hrow'; subst hrow'
+        split at hmax0 <;> omega
+      · exact hmax f' (by simp [hf']) row' hrow'
+    simp only [List.foldl_cons]
+    simp only [List.mem_cons] at hf
+    rcases hf with rfl | hf
+    · rw [hrep] at hfr
+      simp only [Option.some.injEq] at hfr
+      by_cases hgt : o[r].n > start[r].n
+      · rw [if_pos hgt] at hfr
+        exact ⟨o, by simp, row, by rw [hso, hfr], hout, hmax'⟩
+      · rw [if_neg hgt] at hfr
+        exact ⟨start, by simp, row, by rw [hd, hfr], hout, hmax'⟩
+    · exact ⟨f, by simp [hf], row, hfr, hout, hmax'⟩
+
+theorem mergeMax_spec (nC : Nat) (files : List Buffer) (hne : files ≠ [])
+    (hlen : ∀ f ∈ files, f.length = nC) :
+    ∃ out, mergeMax files = .ok out ∧ out.length = nC ∧
+      ∀ r, r < nC → ∃ (k : Nat) (fk : Buffer) (row : Row), files[k]? = some fk ∧ fk[r]? = some row ∧
+        out[r]? = some row ∧ ∀ f' ∈ files, ∀ row', f'[r]? = some row' → row'.n ≤ row.n := by
+  cases files with
+  | nil => exact absurd rfl hne
+  | cons f0 rest =>
+    have hk : mostIdx rest 1 0 (totalCells f0) < (f0 :: rest).length := by
+      rcases mostIdx_bound rest 1 0 (totalCells f0) with h | h
+      · rw [h]; simp
+      · simp only [List.length_cons]; omega
+    generalize hkdef : mostIdx rest 1 0 (totalCells f0) = k at hk
+    have hstart : (f0 :: rest)[k]? = some (f0 :: rest)[k] := by simp
+    generalize hsdef : (f0 :: rest)[k] = start at hstart
+    generalize hfiles : f0 :: rest = files at *
+    let others := ((files.zipIdx).filter (fun p => p.2 != k)).map (·.1)
+    have hothers_mem : ∀ f ∈ others, f ∈ files := by
+      intro f hf
+      simp only [others, List.mem_map, List.mem_filter] at hf
+      obtain ⟨⟨f', i⟩, ⟨hmem, _⟩, rfl⟩ := hf
+      rw [List.mem_zipIdx_iff_getElem?] at hmem
+      exact List.mem_of_getElem? hmem
+    have hfiles_mem : ∀ f' ∈ files, f' = start ∨ f' ∈ others := by
+      intro f' hf'
+      obtain ⟨i, hi⟩ := List.getElem?_of_mem hf'
+      by_cases hik : i = k
+      · left; subst hik; rw [hstart] at hi; simpa using hi.symm
+      · right
+        simp only [others, List.mem_map, List.mem_filter]
+        exact ⟨(f', i), ⟨by rw [List.mem_zipIdx_iff_getElem?]; exact hi, by simpa using hik⟩, rfl⟩
+    have hstart_mem : start ∈ files := List.mem_of_getElem? hstart
+    obtain ⟨h1, h2⟩ := foldl_replaceWhereMore nC others start (hlen _ hstart_mem)
+      (fun f hf => hlen f (hothers_mem f hf))
+    refine ⟨others.foldl replaceWhereMore start, ?_, h1, fun r hr => ?_⟩
+    · subst hfiles
+      simp only [mergeMax, hkdef, hstart, others, List.foldl_map]
+    · obtain ⟨f, hf, row, hfr, hout, hmax⟩ := h2 r hr
+      have hfmem : f ∈ files := by
+        simp only [List.mem_cons] at hf
+        rcases hf with rfl | hf
+        · exact hstart_mem
+        · exact hothers_mem f hf
+      obtain ⟨i, hi⟩ := List.getElem?_of_mem hfmem
+      refine ⟨i, f, row, hi, hfr, hout, fun f' hf' row' hrow' => ?_⟩
+      rcases hfiles_mem f' hf' with rfl | h
+      · exact hmax _ (by simp) row' hrow'
+      · exact hmax f' (by simp [h]) row' hrow'
+
 end CTM.Stats
